@@ -33,6 +33,7 @@ where
                     if i >= shards {
                         break;
                     }
+                    set_context(format!("shard {i} of {shards}"));
                     let part = match crate::panics::catch(|| f(i)) {
                         Ok(r) => r,
                         Err(p) => {
@@ -314,4 +315,132 @@ pub fn supervise(prop: &str, root: &std::path::Path, signature: &str, mem_bytes:
     let _ = std::fs::write(&path, serde_json::to_string_pretty(&doc).unwrap_or_default());
     println!("VIOLATION property={prop} replay={} signature={signature} occurrences=1", path.display());
     Some(1)
+}
+
+// ---------------------------------------------------------------------------------------------
+// Progress pulse: hang detection for every check.
+//
+// Every worker thread that evaluates monitored calls ticks a per-thread counter
+// (`Report::eval`). A watchdog thread samples, once a second, each registered thread's tick
+// counter and *CPU* clock: a thread that burned more than the budget of CPU seconds without
+// completing a single evaluation is stuck inside one call (a loop in the code under test that
+// cannot terminate). That is reported as a violation with the thread's context as the witness.
+// The decision is on the thread's CPU time, never on wall-clock time, so machine load, waiting
+// for a child process or for a lock cannot trigger it.
+
+pub struct Pulse {
+    ticks: std::sync::atomic::AtomicU64,
+    ctx: Mutex<String>,
+    thread: libc::pthread_t,
+    name: String,
+}
+
+// SAFETY: pthread_t is a plain handle; it is only used under the PULSES lock while the owning
+// thread is still registered (the thread removes itself, under the same lock, before it ends).
+unsafe impl Send for Pulse {}
+unsafe impl Sync for Pulse {}
+
+static PULSES: Mutex<Vec<std::sync::Arc<Pulse>>> = Mutex::new(Vec::new());
+static PULSE_WATCHDOG: std::sync::Once = std::sync::Once::new();
+static PULSE_CFG: Mutex<Option<(String, std::path::PathBuf, f64)>> = Mutex::new(None);
+/// largest CPU gap (seconds, 1 s resolution) any thread showed between two evaluations
+static MAX_GAP_MS: std::sync::atomic::AtomicU64 = std::sync::atomic::AtomicU64::new(0);
+
+struct PulseHandle(std::sync::Arc<Pulse>);
+
+impl Drop for PulseHandle {
+    fn drop(&mut self) {
+        let mut all = PULSES.lock().unwrap_or_else(|e| e.into_inner());
+        all.retain(|p| !std::sync::Arc::ptr_eq(p, &self.0));
+    }
+}
+
+thread_local! {
+    static PULSE: PulseHandle = {
+        // SAFETY: pthread_self has no preconditions
+        let me = unsafe { libc::pthread_self() };
+        let p = std::sync::Arc::new(Pulse {
+            ticks: std::sync::atomic::AtomicU64::new(0),
+            ctx: Mutex::new(String::new()),
+            thread: me,
+            name: std::thread::current().name().unwrap_or("unnamed").to_string(),
+        });
+        PULSES.lock().unwrap_or_else(|e| e.into_inner()).push(p.clone());
+        PulseHandle(p)
+    };
+}
+
+/// One monitored evaluation completed on this thread.
+#[inline]
+pub fn tick() {
+    let _ = PULSE.try_with(|p| p.0.ticks.fetch_add(1, Ordering::Relaxed));
+}
+
+/// What this thread is working on (shown as the witness if it hangs).
+pub fn set_context(text: String) {
+    let _ = PULSE.try_with(|p| {
+        *p.0.ctx.lock().unwrap_or_else(|e| e.into_inner()) = text;
+        p.0.ticks.fetch_add(1, Ordering::Relaxed);
+    });
+}
+
+pub fn hang_budget_and_max_gap() -> (f64, f64) {
+    let b = PULSE_CFG.lock().unwrap_or_else(|e| e.into_inner()).as_ref().map_or(0.0, |c| c.2);
+    (b, MAX_GAP_MS.load(Ordering::Relaxed) as f64 / 1000.0)
+}
+
+/// Starts the hang watchdog of this process (idempotent).
+pub fn start_hang_watchdog(prop: &str, root: &std::path::Path, budget_cpu_s: f64) {
+    *PULSE_CFG.lock().unwrap_or_else(|e| e.into_inner()) = Some((prop.to_string(), root.to_path_buf(), budget_cpu_s));
+    PULSE_WATCHDOG.call_once(|| {
+        let _ = std::thread::Builder::new().name("hang-watchdog".into()).spawn(|| {
+            // per registered thread: (ticks last seen, CPU seconds when they last changed)
+            let mut seen: std::collections::HashMap<usize, (u64, f64)> = std::collections::HashMap::new();
+            loop {
+                std::thread::sleep(Duration::from_millis(1000));
+                let Some((prop, root, budget)) = PULSE_CFG.lock().unwrap_or_else(|e| e.into_inner()).clone() else { continue };
+                let mut stuck: Option<(String, String, f64)> = None;
+                {
+                    let all = PULSES.lock().unwrap_or_else(|e| e.into_inner());
+                    let mut live = std::collections::HashSet::new();
+                    for p in all.iter() {
+                        let key = std::sync::Arc::as_ptr(p) as usize;
+                        live.insert(key);
+                        let Some(cpu) = cpu_of(p.thread) else { continue };
+                        let ticks = p.ticks.load(Ordering::Relaxed);
+                        let e = seen.entry(key).or_insert((ticks, cpu));
+                        let gap = cpu - e.1;
+                        if e.0 != ticks {
+                            *e = (ticks, cpu);
+                            continue;
+                        }
+                        MAX_GAP_MS.fetch_max((gap * 1000.0) as u64, Ordering::Relaxed);
+                        if gap > budget {
+                            let ctx = p.ctx.lock().unwrap_or_else(|e| e.into_inner()).clone();
+                            stuck = Some((p.name.clone(), ctx, gap));
+                            break;
+                        }
+                    }
+                    seen.retain(|k, _| live.contains(k));
+                }
+                if let Some((name, ctx, gap)) = stuck {
+                    let dir = root.join("replays");
+                    let _ = std::fs::create_dir_all(&dir);
+                    let path = dir.join(format!("{prop}-hang.json"));
+                    let doc = serde_json::json!({
+                        "property": prop, "signature": format!("{prop}/hang"),
+                        "thread": name, "working_on": ctx, "cpu_seconds_without_completing_one_evaluation": gap,
+                        "budget_cpu_seconds": budget,
+                        "meaning": "a worker thread burned this much CPU time inside one monitored call without returning: the code under test does not terminate on an input the property covers. Re-run the check with the same seed and tier to reproduce; the thread context names the shard/configuration.",
+                        "args": std::env::args().collect::<Vec<_>>(),
+                    });
+                    let _ = std::fs::write(&path, serde_json::to_string_pretty(&doc).unwrap_or_default());
+                    println!("VIOLATION property={prop} replay={} signature={prop}/hang occurrences=1", path.display());
+                    use std::io::Write;
+                    let _ = std::io::stdout().flush();
+                    std::process::exit(1);
+                }
+            }
+        });
+    });
 }
